@@ -165,6 +165,15 @@ let main_exec () =
   let multiline = ref false and gnames : n list list ref = ref [] in
   let stage_checks = ref 0 in
   let ir_evals = ref 0 and ir_inconclusive = ref 0 in
+  (* the shape the compile-correctness theorems assume of every IR: Cat [...; Goal] at the top and
+     Loop1CharBody only around a node that emits one single-character instruction (IRSem.ir_wf) *)
+  let check_ir_shape tag n =
+    incr stage_checks;
+    let top_ok = (match n with NCat l -> (match List.rev l with NGoal :: _ -> true | _ -> false) | NGoal -> true | NCharSet [] -> true | _ -> false) in
+    if not (top_ok && ir_wf (ir_top n)) then begin
+      incr mism;
+      Printf.printf "MISMATCH stage=IRshape-%s case=%s pat=%s flags=%s detail=top_is_cat_goal:%b,ir_wf:%b\n" tag !cur_id !cur_pat !cur_flags top_ok (ir_wf (ir_top n))
+    end in
   let ir_eval_limit = (try int_of_string (Sys.getenv "RV_IR_EVALS") with Not_found -> 4000) in
   let ir_fuel = nat_of_int_big 400 in
   Sys.set_signal Sys.sigalrm (Sys.Signal_handle (fun _ -> raise Ir_timeout));
@@ -244,7 +253,9 @@ let main_exec () =
           if y.steps > 40 * x.steps + 2000 then viol "C05" (Printf.sprintf "%s:%d-steps-vs-%s:%d" b y.steps a x.steps)
         end
       | _ -> () in
-    c05 "bt8" "pk8"; c05 "bta" "pka";
+    (* the backtracker's start prefilter can legitimately make it skip every attempt the PikeVM still makes:
+       when the program has a prefilter the two engines are compared on its prefilter-free twin (btx/pkx) *)
+    if find "btx" <> None then c05 "btx" "pkx" else begin c05 "bt8" "pk8"; c05 "bta" "pka" end;
     List.iter (fun r -> if r.status = "panic" then viol "C06" (Printf.sprintf "%s:panic" r.engine)) g;
     (match find "bt8", find "pk8" with
      | Some a, Some b -> if both_ok a b && not (same a b) then viol "C02" (Printf.sprintf "bt8=%s/pk8=%s" (show_matches a.ms) (show_matches b.ms))
@@ -313,8 +324,8 @@ let main_exec () =
       | "C" :: id :: pat :: fl :: _ ->
         incr cases; cur_id := id; cur_pat := pat; cur_flags := fl;
         insns := []; brs := []; hdr := None; prog := None; ir0 := None; ir1 := None
-      | "N0" :: rest -> ir0 := Some (fst (parse_node rest))
-      | "N1" :: rest -> ir1 := Some (fst (parse_node rest))
+      | "N0" :: rest -> let n = fst (parse_node rest) in ir0 := Some n; check_ir_shape "ir0" n
+      | "N1" :: rest -> let n = fst (parse_node rest) in ir1 := Some n; check_ir_shape "ir1" n
       | "NM" :: ml :: _ :: rest -> multiline := bos ml; gnames := List.map parse_hex rest
       | "G" :: nl :: ng :: uni :: sp -> hdr := Some (ios nl, ios ng, bos uni, parse_sp sp)
       | "I" :: rest -> insns := parse_insn rest :: !insns
